@@ -432,19 +432,23 @@ func slowGenBankOriginParser(length int) pars.Parser {
 			extent += len(prefix)
 
 			for j := 0; j < 60 && i+j < length; j += 10 {
-				if q[extent] != spaceByte {
+				if len(q) <= extent || q[extent] != spaceByte {
 					pos.Byte += extent
 					return pars.NewError("expected whitespace", pos)
 				}
 				extent++
 
 				for k := 0; k < 10 && i+j+k < length; k++ {
-					if !isBaseCharacter(q[extent]) {
+					if len(q) <= extent || !isBaseCharacter(q[extent]) {
 						pos.Byte += extent
 						return pars.NewError("expected character", pos)
 					}
 					extent++
 				}
+			}
+			if extent != len(q) {
+				pos.Byte += extent
+				return pars.NewError("expected newline", pos)
 			}
 
 			offset += copy(p[offset:], q[:extent])
